@@ -167,6 +167,25 @@ def gen_world(tape, tier):
     ref_clean["depth"] = np.exp2(ref_clean["log2"].to_numpy())
     ref_clean["gc"] = rng.uniform(0.35, 0.65, size=n_u)
     ref_clean["spread"] = rng.uniform(0.02, 0.4, size=n_u)
+    # a sample whose capture mostly failed: most target bins without coverage
+    tcov_null = coverage(tb, 5.0, 0.25)
+    dead = rng.random(len(tcov_null)) < 0.7
+    tcov_null.loc[dead, "log2"] = -20.0
+    tcov_null.loc[dead, "depth"] = 0.0
+    # accessible regions as computed on the fly: contigs in another order than the natural one,
+    # row labels left over from a subsetting
+    acc_df = frame(access_rows, ["chromosome", "start", "end"])
+    acc_unsorted = pd.concat([acc_df[acc_df["chromosome"] == c] for c in reversed(names)])
+    acc_unsorted = acc_unsorted.set_axis(acc_unsorted.index * 2 + 5)
+    # regions with intervals nested inside / overlapping earlier ones
+    nest_rows = []
+    for (c, s_, e_) in access_rows[:6]:
+        nest_rows.append((c, s_, e_))
+        if e_ - s_ > 4000:
+            nest_rows.append((c, s_ + 1000, s_ + 2000))
+            nest_rows.append((c, s_ + 1500, s_ + 3500))
+    regions_nested = frame(sorted(nest_rows, key=lambda r: (names.index(r[0]), r[1], -r[2])),
+                           ["chromosome", "start", "end"])
     # a second sample over the same bins (deeper, other noise)
     tcov_b = coverage(tb, 6.0, 0.2)
     acov_b = coverage(ab, 1.5, 0.3)
@@ -282,6 +301,9 @@ def gen_world(tape, tier):
         "ref_alt": CNA(ref_alt, {"sample_id": "reference"}),
         "ref_clean": CNA(ref_clean, {"sample_id": "reference"}),
         "tcov_b": CNA(tcov_b, {"sample_id": "S2"}),
+        "tcov_null": CNA(tcov_null, {"sample_id": "S3"}),
+        "access_unsorted": GA(acc_unsorted, {"sample_id": "access"}),
+        "regions_nested": GA(regions_nested, {"sample_id": "nested"}),
         "acov_b": CNA(acov_b, {"sample_id": "S2"}),
         "cnr": CNA(cnr, dict(meta)),
         "cnr_clean": CNA(cnr_clean, dict(meta)),
@@ -289,6 +311,8 @@ def gen_world(tape, tier):
         # one chromosome only (sorted, non-overlapping): the "nothing to do" fast paths of
         # merge / flatten return their input table
         "cnr_chr1": CNA(cnr[cnr["chromosome"] == names[0]].reset_index(drop=True), dict(meta)),
+        # an amplicon / whole-genome style table: no off-target bins at all
+        "cnr_ontarget": CNA(cnr[cnr["gene"] != "Antitarget"].reset_index(drop=True), dict(meta)),
         "cns": CNA(cns, dict(meta)),
         "cns_stats": CNA(cns_stats, dict(meta)),
     }
